@@ -166,13 +166,21 @@ theorem C12_idempotent (E : Env) (hT : TableWf E.T) (hK : avConstsOk E.K = true)
     emit (serialise E.T (roundTrip E i)) = emit (serialise E.T i) := by
   rw [C12_roundtrip E hT hK i hwf hcl, emit_serialise_norm]
 
+/-- **Schema order.** The written document has, under the root, for each member in
+    `_get_all_c_children_with_order` order one element with the declared tag per child, then the
+    extension elements. -/
+theorem C12_schema_order (T : Nat → ClassDef) (hT : TableWf T) (i : Inst) (hwf : treeWf T i = true) :
+    (wire (serialise T i)).kids.map (·.tag) = expectedOrder T i :=
+  serialise_kid_tags T hT i hwf
+
 /-- **The model meets the specification** the driver evaluates on the implementation's output. -/
 theorem C12_model_meets_spec (E : Env) (hT : TableWf E.T) (hK : avConstsOk E.K = true) (i : Inst)
     (hwf : treeWf E.T i = true) (hcl : wireClean E i = true) :
-    specRoundTrip i (modelRoundTrip E i) = true := by
+    specRoundTrip E.T i (modelRoundTrip E i) = true := by
   obtain ⟨h1, h2⟩ := C12_no_exception E hT hK i hwf hcl
   simp only [modelRoundTrip, h1, h2, Bool.not_true, Bool.or_self, Bool.false_eq_true, if_false, specRoundTrip,
-    C12_idempotent E hT hK i hwf hcl, C12_roundtrip E hT hK i hwf hcl, Bool.and_eq_true, decide_eq_true_eq, and_true]
+    C12_idempotent E hT hK i hwf hcl, C12_roundtrip E hT hK i hwf hcl, Bool.and_eq_true, decide_eq_true_eq, and_true,
+    serialise_kid_tags E.T hT i hwf]
   -- normInst is idempotent
   have : ∀ j, normInst (normInst j) = normInst j := by
     intro j
@@ -234,12 +242,12 @@ theorem C12_attribute_value (E : Env) (hT : TableWf E.T) (hK : avConstsOk E.K = 
 
 /-- The property's first sentence at full strength: for EVERY instance of the instance space. -/
 def C12_roundtrip_full (E : Env) : Prop :=
-  ∀ i, instShape E.T i = true → specRoundTrip i (modelRoundTrip E i) = true
+  ∀ i, instShape E.T i = true → specRoundTrip E.T i (modelRoundTrip E i) = true
 
 /-- `C12_roundtrip_full` restricted by the two decidable side conditions (this is `C12_model_meets_spec`). -/
 theorem C12_roundtrip_partial (E : Env) (hT : TableWf E.T) (hK : avConstsOk E.K = true) :
     ∀ i, instShape E.T i = true → treeWf E.T i = true → wireClean E i = true →
-      specRoundTrip i (modelRoundTrip E i) = true :=
+      specRoundTrip E.T i (modelRoundTrip E i) = true :=
   fun i _ hwf hcl => C12_model_meets_spec E hT hK i hwf hcl
 
 /-- the pinned tree: regenerated table, the constants of saml2.saml, no numeric conversions needed -/
@@ -301,34 +309,35 @@ def wAvTypeOnly : Inst :=
 
 set_option maxRecDepth 100000 in
 theorem C12_counterexample_cr :
-    instShape theTable wCR = true ∧ specRoundTrip wCR (modelRoundTrip theEnv wCR) = false := by decide +kernel
+    instShape theTable wCR = true ∧ specRoundTrip theTable wCR (modelRoundTrip theEnv wCR) = false := by decide +kernel
 set_option maxRecDepth 100000 in
 theorem C12_counterexample_nameformat :
-    instShape theTable wNameFormat = true ∧ specRoundTrip wNameFormat (modelRoundTrip theEnv wNameFormat) = false := by
+    instShape theTable wNameFormat = true ∧ specRoundTrip theTable wNameFormat (modelRoundTrip theEnv wNameFormat) = false := by
   decide +kernel
 set_option maxRecDepth 100000 in
 theorem C12_counterexample_ctor_default :
-    instShape theTable wCtorDefault = true ∧ specRoundTrip wCtorDefault (modelRoundTrip theEnv wCtorDefault) = false := by
+    instShape theTable wCtorDefault = true ∧ specRoundTrip theTable wCtorDefault (modelRoundTrip theEnv wCtorDefault) = false := by
   decide +kernel
 set_option maxRecDepth 100000 in
 theorem C12_counterexample_av_strip :
-    instShape theTable wAvStrip = true ∧ specRoundTrip wAvStrip (modelRoundTrip theEnv wAvStrip) = false := by
+    instShape theTable wAvStrip = true ∧ specRoundTrip theTable wAvStrip (modelRoundTrip theEnv wAvStrip) = false := by
   decide +kernel
 set_option maxRecDepth 100000 in
 theorem C12_counterexample_av_reorder :
-    instShape theTable wAvReorder = true ∧ specRoundTrip wAvReorder (modelRoundTrip theEnv wAvReorder) = false := by
+    instShape theTable wAvReorder = true ∧ specRoundTrip theTable wAvReorder (modelRoundTrip theEnv wAvReorder) = false := by
   decide +kernel
 set_option maxRecDepth 100000 in
 theorem C12_counterexample_av_type_only :
-    instShape theTable wAvTypeOnly = true ∧ specRoundTrip wAvTypeOnly (modelRoundTrip theEnv wAvTypeOnly) = false := by
+    instShape theTable wAvTypeOnly = true ∧ specRoundTrip theTable wAvTypeOnly (modelRoundTrip theEnv wAvTypeOnly) = false := by
   decide +kernel
 
 /-- The full statement fails for the code as it is (six recorded root causes, one witness each above). -/
 theorem C12_roundtrip_counterexample : ¬ C12_roundtrip_full theEnv := by
   intro h
-  have := h wCR C12_counterexample_cr.1
-  rw [C12_counterexample_cr.2] at this
-  cases this
+  have h1 : specRoundTrip theEnv.T wCR (modelRoundTrip theEnv wCR) = true := h wCR C12_counterexample_cr.1
+  have h2 : specRoundTrip theEnv.T wCR (modelRoundTrip theEnv wCR) = false := C12_counterexample_cr.2
+  rw [h2] at h1
+  cases h1
 
 /-! ## parsing documents written by someone else -/
 
@@ -395,7 +404,7 @@ example : treeWf theTable sample = true ∧ wireClean theEnv sample = true ∧
 set_option maxRecDepth 100000 in
 /-- … and the conclusion, computed: the round trip returns the instance (the inner empty text as no text) -/
 example : roundTrip theEnv sample = normInst sample ∧ normInst sample ≠ sample ∧
-    specRoundTrip sample (modelRoundTrip theEnv sample) = true := by decide +kernel
+    specRoundTrip theTable sample (modelRoundTrip theEnv sample) = true := by decide +kernel
 
 set_option maxRecDepth 100000 in
 /-- `C12_attribute_value`: a typed value whose type uses the `xs` prefix -/
